@@ -21,6 +21,7 @@ import (
 	"time"
 
 	sdkmath "cosmossdk.io/math"
+	abci "github.com/cometbft/cometbft/abci/types"
 	codectypes "github.com/cosmos/cosmos-sdk/codec/types"
 	sdk "github.com/cosmos/cosmos-sdk/types"
 	"github.com/cosmos/gogoproto/proto"
@@ -51,10 +52,31 @@ func main() {
 
 var capLog = world.NewCapLogger("panic")
 
+// blocksWithRecovered counts, for the last execution, the blocks in which module
+// code recovered (and only logged) a panic during begin/end-block processing.
+var blocksWithRecovered int
+
+func recoveredHits() []string {
+	var hits []string
+	for _, h := range *capLog.Hits {
+		if !strings.Contains(h, "recovered in runTx") { // tx-level panics are turned into tx errors by baseapp: not block processing
+			hits = append(hits, h)
+		}
+	}
+	return hits
+}
+
 func execute(d *dev) (run *hist.Run, blocks int, applied int) {
 	capLog.Reset()
+	blocksWithRecovered = 0
+	seen := 0
 	first := -1
-	h := hist.Hooks{}
+	h := hist.Hooks{OnBlock: func(i int, height int64, resp *abci.ResponseFinalizeBlock) {
+		if n := len(recoveredHits()); n > seen {
+			seen = n
+			blocksWithRecovered++
+		}
+	}}
 	if d != nil {
 		h.Mutate = func(i int, txs []hist.Tx) []hist.Tx {
 			for ti := range txs {
@@ -85,7 +107,7 @@ func run(r *report.Run, shard, nshards int, replayFile string) {
 	r.Assumptions = []string{
 		"deviation bound 1: one field of one message type is hostile per execution (all transactions of that type in the first block where it occurs, or all occurrences)",
 		"only message types occurring in the scripted history are mutated; the version gate of CheckChainVersion is not in the alphabet",
-		"a panic recovered inside a module (skyway end-blocker) is reported under signature prefix 'recovered-panic' — it aborts the rest of that module's end-block work",
+		"a panic that module code recovers and logs (skyway end-blocker, listed by the property as a protective mechanism) is a violation only when it recurs in >= 3 different blocks (the module's remaining end-block work is then skipped persistently); one-off recovered panics are listed in the evidence as transient",
 	}
 	if replayFile != "" {
 		if shard != 0 {
@@ -179,6 +201,9 @@ func run(r *report.Run, shard, nshards int, replayFile string) {
 		judge(r, d, run, blocks)
 	}
 	r.Extra["distinct_tx_outcomes_shard"+fmt.Sprint(shard)] = float64(len(outcomes))
+	if len(transient) > 0 {
+		r.Extra["transient_recovered_panics_shard"+fmt.Sprint(shard)] = transient
+	}
 }
 
 func judge(r *report.Run, d dev, run *hist.Run, blocks int) {
@@ -198,16 +223,15 @@ func judge(r *report.Run, d dev, run *hist.Run, blocks int) {
 		r.Violate("abort-error:"+d.MsgType+"."+d.Field, fmt.Sprintf("hostile %s=%s: FinalizeBlock returned an error after %d blocks", d.Field, d.Value, blocks), d)
 		return
 	}
-	var hits []string
-	for _, h := range *capLog.Hits {
-		if !strings.Contains(h, "recovered in runTx") { // tx-level panics are turned into tx errors by baseapp: not block processing
-			hits = append(hits, h)
-		}
-	}
-	if n := len(hits); n > 0 {
-		r.Violate("recovered-panic:"+d.MsgType+"."+d.Field, fmt.Sprintf("hostile %s=%s: %d panics recovered and logged by module code, first: %s", d.Field, d.Value, n, hits[0]), d)
+	hits := recoveredHits()
+	if blocksWithRecovered >= 3 {
+		r.Violate("recovered-panic-persistent:"+d.MsgType+"."+d.Field, fmt.Sprintf("hostile %s=%s: module code recovered a panic in %d different blocks (its end-block work is aborted again and again), first: %s", d.Field, d.Value, blocksWithRecovered, hits[0]), d)
+	} else if len(hits) > 0 {
+		transient = append(transient, fmt.Sprintf("%s.%s=%s: %s", d.MsgType, d.Field, d.Value, hits[0]))
 	}
 }
+
+var transient []string
 
 // clone deep-copies a message through its wire encoding (proto.Clone cannot merge math.Int / LegacyDec).
 func clone(m sdk.Msg) sdk.Msg {
